@@ -613,7 +613,7 @@ class C06(core.Check):
         "distinct = different declaration."
     )
     assumptions = [
-        "the tokenizer of the harness (cbv/props/c06.py: tokenize) maps the text of the file to tokens faithfully",
+        "the raw text of the written file is tokenized by the model (lexText, proved to read back every canonical text of well-formed tokens); the tokenizer of the harness is only a cross-check and is still used for the small strings of the declaration (setting values, geometry properties, patch options)",
         "the numbers of the per-wire Grading.specification and the counts of hex lines, validity and point positions of curved edges "
         "are taken from the implementation (C01-C04, C07, C08) -- their text is printed by the model; str() of setting values "
         "and geometry properties are opaque tokens",
@@ -623,7 +623,7 @@ class C06(core.Check):
     partial_note = (
         "Theorems: bracket-layer and schema-layer round trip of the parser on every dictionary with semicolon-free "
         "statements, structural facts of the assembled dictionary, the text of every %.8f number (reads back to within half a "
-        "unit of the 8th decimal, well-formed). Text <-> token conversion is validated by the correspondence, not proved; "
+        "unit of the 8th decimal, well-formed), the tokenizer reads back canonical texts (T_C06_lex_unlex); that it ignores the real file's layout is validated by the correspondence; "
         "str(float) of grading values and VTK coordinates is generated by the model and validated (accepted tokens are within half an ulp: proved; that the generator is always accepted: run-time check only)."
     )
 
